@@ -46,10 +46,13 @@ Inductive ov := OPass | OBasic (t: ty) | ORet (t: option ty) | ODeser.
 Record rfld := mkrfld {
   r_name: string; r_meta_alias: option string;   (* field(metadata={"alias": ..}) / field_options(alias=..) *)
   r_ann_alias: option string;                     (* the last Annotated[.., Alias(..)] *)
-  r_ty: ty; r_init: bool; r_def: rdef; r_descr: option string;
+  r_ty: ty; r_final: bool;                        (* the annotation is Final[r_ty] *)
+  r_init: bool; r_def: rdef; r_descr: option string;
   r_ser: option ov;                               (* field option "serialize" *)
   r_strat: option ov }.                           (* field option "serialization_strategy" *)
 Record rcls := mkrcls { rc_aliases: list (string * string);   (* Config.aliases *)
+                        rc_dial_omit_none: option bool;        (* Config.dialect.omit_none, if the dialect sets it *)
+                        rc_omit_none: option bool;             (* Config.omit_none, if set *)
                         rc_dialect: list (string * ov);        (* Config.dialect.serialization_strategy, by type key *)
                         rc_strats: list (string * ov);         (* Config.serialization_strategy, by type key *)
                         rc_fields: list rfld }.
@@ -132,22 +135,37 @@ Definition resolve_field (dial conf: list (string * ov)) (r: rfld) : ty :=
   | None => resolve_ty dial conf r.(r_ty)
   end.
 
-Definition digest_field (aliases: list (string * string)) (dial conf: list (string * ov)) (r: rfld) : option fld :=
+(* CodeBuilder.is_field_nullable for a field without default: Annotated / Final are looked through (Final is the
+   field flag, Annotated carries only aliases here), then Any / None / a Union with a None member; a NewType is not *)
+Definition nullable_ty (t: ty) : bool :=
+  match t with
+  | TAny | TNone => true
+  | TUnion ts => existsb (fun x => match x with TNone => true | _ => false end) ts
+  | _ => false
+  end.
+
+(* required = neither default nor factory, and not (omit_none in force and the field nullable): with omit_none the
+   serializer drops the key of a nullable field holding None *)
+Definition digest_field (aliases: list (string * string)) (omit_none: bool) (dial conf: list (string * ov)) (r: rfld) : option fld :=
   if r.(r_init) then
     let a := match first_some r.(r_meta_alias) (first_some r.(r_ann_alias) (lookup r.(r_name) aliases)) with
              | Some a => a | None => r.(r_name) end in
     Some (mkfld (match a with EmptyString => r.(r_name) | _ => a end) (resolve_field dial conf r)
-                (match r.(r_def) with RNone => true | _ => false end)
+                (match r.(r_def) with RNone => negb (omit_none && nullable_ty r.(r_ty)) | _ => false end)
                 (match r.(r_def) with RDefault v => Some v | _ => None end) r.(r_descr))
   else None.
-Fixpoint digest_fields (aliases: list (string * string)) (dial conf: list (string * ov)) (l: list rfld) : list fld :=
+Fixpoint digest_fields (aliases: list (string * string)) (omit_none: bool) (dial conf: list (string * ov)) (l: list rfld) : list fld :=
   match l with
   | [] => []
-  | r :: t => match digest_field aliases dial conf r with
-              | Some f => f :: digest_fields aliases dial conf t | None => digest_fields aliases dial conf t end
+  | r :: t => match digest_field aliases omit_none dial conf r with
+              | Some f => f :: digest_fields aliases omit_none dial conf t | None => digest_fields aliases omit_none dial conf t end
   end.
+(* get_dialect_or_config_option("omit_none", False): Config.dialect first, then Config *)
+Definition eff_omit_none (c: rcls) : bool :=
+  match first_some c.(rc_dial_omit_none) c.(rc_omit_none) with Some b => b | None => false end.
 Definition digest_tab (E: list (string * rcls)) : ctab :=
-  map (fun c => (fst c, digest_fields (snd c).(rc_aliases) (snd c).(rc_dialect) (snd c).(rc_strats) (snd c).(rc_fields))) E.
+  map (fun c => (fst c, digest_fields (snd c).(rc_aliases) (eff_omit_none (snd c)) (snd c).(rc_dialect) (snd c).(rc_strats)
+                                      (snd c).(rc_fields))) E.
 
 (* ---- one JSONSchema object (children already rendered); to_dict order = field order of
         the JSONSchema dataclass, None fields omitted (Config.omit_none) ---- *)
